@@ -318,7 +318,8 @@ def do_search(args, cfg, base, t0):
                 log(f"  regression of a defect recorded as fixed: {e.get('line')}")
                 exit_code = 1
     if exit_code:
-        write_evidence(args, cfg, acc, t0, violations=1)
+        if not args.no_evidence:
+            write_evidence(args, cfg, acc, t0, violations=1)
         return exit_code
 
     n_runs = args.runs if args.runs is not None else cfg[args.tier]
@@ -499,6 +500,8 @@ COMPONENTS = {
 
 
 def write_evidence(args, cfg, acc, t0, violations=0, clause_counts=None):
+    if os.path.realpath(os.environ.get("VERIF_REPO", "/repo")) != os.path.realpath("/repo"):
+        return  # evidence describes /repo only; runs against scratch copies (self-tests) leave it alone
     wall = time.time() - t0
     os.makedirs(os.path.join(VERIF, "evidence"), exist_ok=True)
     rule = {
